@@ -40,7 +40,7 @@ META = dict(
                  "BOM-less UTF-16/32 files are outside the generated domain (no reader can identify them without guessing)",
                  "the CSV clause is input generation riding on the simulated dispatcher"],
     probes_expected=["trade_in_last_ms", "trade_in_sub_ms_tail", "trade_on_boundary", "late_trade", "out_of_order_trade",
-                     "empty_window", "csv_bom_utf16", "csv_bom_utf32", "csv_unsorted", "csv_zero_volume", "late_timer"],
+                     "empty_window", "csv_bom_utf16", "csv_bom_utf32", "csv_unsorted", "csv_zero_volume", "csv_duplicate_timestamp", "late_timer"],
     states_measure="distinct (pending trades, windows flushed) pairs at push time",
 )
 
@@ -314,7 +314,12 @@ def run_csv(tape, prop, tier):
         sort = True if order != "sorted" else tape.chance(0.5)
         rows = []
         px = tape.int(1, 100000)
-        for j in range(n):
+        dups = tape.chance(0.25)
+        jj = -1
+        for _ in range(n):
+            # duplicated timestamps are legal CSV content (overlapping downloads): ties keep the file's order
+            jj = jj + (0 if (dups and jj >= 0 and tape.chance(0.25)) else 1)
+            j = jj
             lv = sorted(D(max(1, px + tape.int(0, 400) - 200)).scaleb(-tape.draw(4)) for _ in range(4))
             o = tape.choice([lv[1], lv[2], lv[0], lv[3]])
             c = tape.choice([lv[2], lv[1], lv[3], lv[0]])
@@ -357,7 +362,9 @@ def run_csv(tape, prop, tier):
                 else:
                     res.probes["csv_zero_volume"] += 1
             if s["sort"]:
-                exp.sort(key=lambda x: x[0])
+                exp.sort(key=lambda x: x[0])          # stable: rows with equal timestamps keep their file order
+            if len({x[0] for x in exp}) < len(exp):
+                res.probes["csv_duplicate_timestamp"] += 1
             expected[si] = exp
             text = ("\r\n" if s["crlf"] else "\n").join(lines) + ("\r\n" if s["crlf"] else "\n")
             bom = {"utf-8": b"", "utf-8-sig": b"", "utf-16-le": codecs.BOM_UTF16_LE, "utf-16-be": codecs.BOM_UTF16_BE,
